@@ -230,3 +230,16 @@ Proof.
   apply pchip_at_knot; [apply serial_grid_sorted|rewrite map_length; cbn; lia|].
   apply in_map_iff. exists l. split; [reflexivity|exact Hin].
 Qed.
+
+(* what is credited to the store over a series never exceeds the terminal energy of the series *)
+Theorem energy_never_gains s ps dt : 0 < eff_c s <= 1 -> 0 < eff_d s <= 1 ->
+  length ps = length dt -> (forall d, In d dt -> 0 <= d) ->
+  energy_kj (map (cell_from_terminal s) ps) dt <= energy_kj ps dt.
+Proof.
+  intros Hc Hd. revert dt; induction ps as [|p ps IH]; intros [|d ds] Hl Hpos; cbn in *; try discriminate; try lra.
+  assert (0 <= d) by (apply Hpos; left; reflexivity).
+  pose proof (store_no_gain s Hc Hd p) as Hp.
+  assert (IH' : energy_kj (map (cell_from_terminal s) ps) ds <= energy_kj ps ds)
+    by (apply IH; [congruence|intros x Hx; apply Hpos; right; exact Hx]).
+  assert (0 <= (p - cell_from_terminal s p) * d) by (apply Qmult_le_0_compat; lra). lra.
+Qed.
